@@ -81,7 +81,9 @@ static void run_seq(int comp, int sink, const std::vector<Step>& steps, Result& 
     std::string base = g_dir + "/c" + std::to_string(getpid()) + "_"; std::vector<std::string> names; std::vector<std::string> expect(1);
     const char* ext = comp == 1 ? ".gz" : ".xz"; uint64_t c0[5] = {g_gz_partial, g_gz_finish_more, g_xz_partial, g_xz_finish_more, g_gz_nothing};
     // output names: plain, with dots, already ending in the format's own suffix (the suffix is appended to whatever name was given)
-    auto newname = [&]() { static const char* TAIL[] = {"", ".cdns", ".gz", ".tar.xz", ".part"}; std::string n = base + std::to_string(names.size()) + TAIL[(names.size() + steps.size()) % 5]; names.push_back(n); return n; };
+    auto newname = [&]() { static const char* TAIL[] = {"", ".cdns", ".gz", ".tar.xz", ".part"}; std::string n = base + std::to_string(names.size()) + TAIL[(names.size() + steps.size()) % 5]; names.push_back(n);
+        if (sink == 0) { std::string junk(500, 0); for (size_t i = 0; i < junk.size(); i++) junk[i] = (char)(i * 13 + 1); spit(n + ext + ".part", junk); }   // a dead earlier run left its temporary file behind
+        return n; };
     auto opensink = [&](const std::string& n) { return open(n.c_str(), O_WRONLY | O_CREAT | O_TRUNC, 0600); };
     std::string same_name_problem;
     {
@@ -144,13 +146,14 @@ static void run_export(int comp, int sink, int nrec, int kind, Result& R, std::v
     uint64_t reported = 0;
     std::string base = g_dir + "/e" + std::to_string(getpid()) + "_"; uint64_t c0[4] = {g_gz_partial, g_gz_finish_more, g_xz_partial, g_xz_finish_more};
     auto doit = [&](CborOutputCompression cc, const std::string& name) {
-        BlockParameters bp; bp.storage_parameters.max_block_items = kind == 0 ? 10000 : 97; std::vector<BlockParameters> bps = {bp}; FilePreamble fp(bps);
+        BlockParameters bp; bp.storage_parameters.max_block_items = kind == 3 ? 1 : kind == 0 ? 10000 : 97; std::vector<BlockParameters> bps = {bp}; FilePreamble fp(bps);   // kind 3: one record per block (more than 2^16 blocks in one output)
         std::unique_ptr<CdnsExporter> e; if (sink == 0) e.reset(new CdnsExporter(fp, name, cc)); else e.reset(new CdnsExporter(fp, open(name.c_str(), O_WRONLY | O_CREAT | O_TRUNC, 0600), cc));
         uint64_t x = 88172645463325252ULL;
         for (int i = 0; i < nrec; i++) { GenericQueryResponse q; q.ts = Timestamp(1600000000 + i / 50, (i * 7919) % 1000000); q.client_port = (uint16_t)(i * 31); q.transaction_id = (uint16_t)i; q.query_size = 40 + i % 60; q.response_size = 100 + (i * 13) % 1400;
             std::string nm(12 + i % 20, 0); for (auto& ch : nm) { x ^= x << 13; x ^= x >> 7; x ^= x << 17; ch = (char)('a' + (x >> 11) % (kind == 2 ? 256 : 26)); } q.query_name = nm + std::string("\x07""example\x03""com\x00", 13);
             std::string ip(4, 0); for (auto& ch : ip) { x ^= x << 13; x ^= x >> 7; x ^= x << 17; ch = (char)(x >> 9); } q.client_ip = ip; q.server_ip = std::string("\xc0\x00\x02\x01", 4); q.query_rcode = i % 5; q.response_delay = (int64_t)(x % 100000);
-            size_t r = e->buffer_qr(q); if (cc != CborOutputCompression::NO_COMPRESSION) reported += r; R.count("transitions"); }
+            size_t r = e->buffer_qr(q); if (cc != CborOutputCompression::NO_COMPRESSION) reported += r; R.count("transitions");
+            if (g_export_oracle == 3 && i == nrec / 2) { if (sink == 0) e->rotate_output(name + "_second", true); else e->rotate_output(open((name + "_second").c_str(), O_WRONLY | O_CREAT | O_TRUNC, 0600), true); } }
         size_t r = e->write_block(); if (cc != CborOutputCompression::NO_COMPRESSION) reported += r + 1;   // + the closing break written when the output is closed
     };
     std::string pn = base + "plain", cn = base + "comp"; const char* ext = comp == 1 ? ".gz" : ".xz";
@@ -160,6 +163,14 @@ static void run_export(int comp, int sink, int nrec, int kind, Result& R, std::v
     std::string expect = slurp(pn), z = slurp(cpath), plain, why; bool ok = comp == 1 ? gunzip1(z, plain, why) : unxz1(z, plain, why);
     R.count("export_plain_bytes", expect.size());
     if (expect.size() < 1000) out.push_back({"harness|" + tag, "plain export is empty"});
+    if (g_export_oracle == 3) { // C13: the export is rotated half-way (with export of the buffered block): both outputs are complete valid files and together hold every record once, in order
+        std::string z2 = slurp(cn + "_second" + (sink == 0 ? ext : "")), plain2, why2; bool ok2 = comp == 1 ? gunzip1(z2, plain2, why2) : unxz1(z2, plain2, why2); size_t nq = 0; std::vector<uint64_t> ids;
+        if (!ok) out.push_back({"rotated|undecodable-output|" + tag, "first output: " + why}); if (!ok2) out.push_back({"rotated|undecodable-output|" + tag, "second output: " + why2});
+        if (ok && ok2) { try { for (const std::string* pl : {&plain, &plain2}) { ref::RFile rf = ref::read_file(*pl); for (auto& b : rf.blocks) nq += b.qrs.size(); } R.count("export_records_validated", nq);
+                               if (nq != (size_t)nrec) out.push_back({"rotated|records-lost-or-repeated|" + tag, "the two outputs hold " + std::to_string(nq) + " query/response records, " + std::to_string(nrec) + " were buffered"});
+                               if (plain + "|" + plain2 != expect + "|" + slurp(pn + "_second")) out.push_back({"rotated|content-differs|" + tag, "the rotated compressed outputs do not decompress to what the uncompressed exporter wrote for the same calls"}); }
+                         catch (std::exception& e) { out.push_back({"rotated|invalid-document|" + tag, std::string("an output of the rotated export is not a valid C-DNS document: ") + e.what()}); } }
+        for (const std::string& b : {pn, cn}) { unlink(b.c_str()); unlink((b + ext).c_str()); unlink((b + "_second").c_str()); unlink((b + "_second" + ext).c_str()); unlink((b + ext + ".part").c_str()); } return; }
     if (g_export_oracle == 1) { // C10: the counts returned while the output was open add up to the size of its uncompressed content
         if (!ok) out.push_back({"count|undecodable-output|" + tag, why}); else if (plain.size() != reported) out.push_back({"count|" + tag, "the calls reported " + std::to_string(reported) + " bytes, the output decompresses to " + std::to_string(plain.size()) + " bytes"});
         unlink(pn.c_str()); unlink(cpath.c_str()); unlink((cn + ext + ".part").c_str()); return; }
@@ -173,7 +184,7 @@ static void run_export(int comp, int sink, int nrec, int kind, Result& R, std::v
 
 int main(int argc, char** argv) {
     Args a = Args::parse(argc, argv); g_dir = scratch_dir(); Result total; bool T = a.thorough();
-    if (a.mode == "export-counts") g_export_oracle = 1; else if (a.mode == "export-wellformed") g_export_oracle = 2;
+    if (a.mode == "export-counts") g_export_oracle = 1; else if (a.mode == "export-wellformed") g_export_oracle = 2; else if (a.mode == "export-rotated") g_export_oracle = 3;
     auto done = [&](int rc) { a.finish(total); rm_rf(g_dir); return rc; };
     auto parse = [](const std::string& s, int& comp, int& sink, std::vector<Step>& st) {
         if (sscanf(s.c_str(), "comp=%d;sink=%d;", &comp, &sink) != 2) return false; size_t p = s.find("steps="); if (p == std::string::npos) return false; p += 6;
@@ -218,7 +229,8 @@ int main(int argc, char** argv) {
       for (int comp = 1; comp <= 2; comp++) for (int sink = 0; sink < 2; sink++) for (int kind = 0; kind < 3; kind++) { if (!T && (kind == 1 || (comp == 2 && sink == 1))) continue; Task t{comp, sink, {}, false}; t.exp_n = T ? 60000 : 25000; t.exp_kind = kind; tasks.push_back(t); } }
     // only in the dedicated stage (AddressSanitizer build): without a sanitizer the use of a destroyed static may or may not be noticed, which would not replay
     // dedicated stages of C10 / C02: only the end-to-end exports (large compressed outputs), judged by the byte-count / well-formedness oracle
-    if (a.mode == "export-counts" || a.mode == "export-wellformed") { g_export_oracle = a.mode == "export-counts" ? 1 : 2; tasks.clear();
+    if (a.mode == "export-counts" || a.mode == "export-wellformed" || a.mode == "export-rotated") { tasks.clear();
+        if (a.mode == "export-wellformed") { Task t{1, 0, {}, false}; t.exp_n = 70000; t.exp_kind = 3; tasks.push_back(t); }   // 70000 blocks in one output (block counters narrower than 17 bits)
         for (int comp = 1; comp <= 2; comp++) for (int sink = 0; sink < 2; sink++) for (int kind = 0; kind < 3; kind++) for (int n : T ? std::vector<int>{3000, 25000, 60000} : std::vector<int>{3000, 25000}) { if (!T && kind == 1) continue; Task t{comp, sink, {}, false}; t.exp_n = n; t.exp_kind = kind; tasks.push_back(t); } }
     if (a.mode == "static-exit") { tasks.clear(); for (int comp = 1; comp <= 2; comp++) for (int sink = 0; sink < 2; sink++) { Task t{comp, sink, {}, false}; t.static_exit = true; tasks.push_back(t); } }
     Pool pool(a.jobs, 900);
